@@ -111,10 +111,16 @@ def run_child(bdir, scn, work):
     root = work / f"f{scn.id}.d"
     inp = work / f"f{scn.id}.json"
     inp.write_text(json.dumps(scn.to_json(root)))
-    p = subprocess.run([str(bdir / "drv_fatal"), str(inp)], stdout=subprocess.PIPE, stderr=subprocess.DEVNULL, timeout=300,
-                       env={"LC_ALL": "C.UTF-8", "TZ": "UTC", "PATH": "/usr/bin:/bin"})
+    try:
+        p = subprocess.run([str(bdir / "drv_fatal"), str(inp)], stdout=subprocess.PIPE, stderr=subprocess.DEVNULL, timeout=300,
+                           env={"LC_ALL": "C.UTF-8", "TZ": "UTC", "PATH": "/usr/bin:/bin"})
+        out, code = p.stdout, p.returncode
+    except subprocess.TimeoutExpired as ex:
+        # a child that neither dies of the fatal message nor ends: what it has written so far is validated, the missing
+        # Fatal event makes the run a rejected one
+        out, code = ex.stdout or b"", -999
     raw = []
-    for line in p.stdout.splitlines():
+    for line in out.splitlines():
         try:
             raw.append(json.loads(line))
         except ValueError:
@@ -129,7 +135,7 @@ def run_child(bdir, scn, work):
                           "b64": base64.b64encode((d / name).read_bytes()).decode()})
     inp.unlink()
     subprocess.run(["rm", "-rf", str(root)])
-    return raw, final, p.returncode
+    return raw, final, code
 
 
 def observed_lengths(scn, final, sub):
